@@ -83,6 +83,29 @@ def check_controller(res, T, cname, unit, via_clone=False):
         if (got_t.min, got_t.max) != sc.ranges[unit]:
             res.violation(f"C10:unit-range:{K}", f"{K}: unit selects {got_t!r}, spec says {sc.ranges[unit]}", {"ctl": K})
     ctl = cls.controllers[cname]
+    if sc.kind in ("range", "compact", "no_offset") and cname != "user_defined_1":
+        # an assignment that is REFUSED (out of range, strict mode) leaves value and stored form as they were
+        # (unit-dependent controllers only warn, by design: not probed)
+        from rv.errors import ControllerValueError as _CVE
+        lo_, hi_ = sc.bounds(unit)
+        keep = lo_ + (hi_ - lo_) // 3
+        try:
+            setattr(mod, cname, keep)
+            raw_keep = mod.get_raw(cname)
+            for bad in (hi_ + 28, lo_ - 100):
+                try:
+                    setattr(mod, cname, bad)
+                except _CVE:
+                    pass
+                except Exception:
+                    pass
+                res.count("refused_assignments_checked")
+                if _val(getattr(mod, cname)) != keep or mod.get_raw(cname) != raw_keep:
+                    res.violation(f"C10:refused-assignment-stored:{sc.kind}", f"{K}: value {keep} (stored {raw_keep}); after the refused assignment of {bad} the controller reads "
+                                                                             f"{getattr(mod, cname)!r}, stored form {mod.get_raw(cname)}", {"ctl": K, "bad": bad})
+                    break
+        except Exception as e:
+            res.count("refused_assignment_probe_unusable")
     dom = sc.domain(unit)
     lo_hi = sc.bounds(unit) if sc.kind in ("range", "compact", "no_offset", "dependent") else None
     prev_raw = prev_pat = None
@@ -184,7 +207,21 @@ def check_proxy(res, T, cname, via_file=False, full=True, history="plain"):
     emb = api.Project()
     m = emb.new_module(MODULE_CLASSES[t.mtype])
     mm = api.m.MetaModule(project=emb)
-    mm.user_defined_controllers = 1
+    if history == "options-chunk":
+        # the MetaModule already sits in a song; its options (the count of exposed controllers among them) arrive as the options
+        # block of a template, through the public load_chunk() hook
+        from rv.modules import Chunk
+        host = api.Project()
+        host.attach_module(mm)
+        template = api.m.MetaModule()
+        template.user_defined_controllers = 1
+        ch = Chunk()
+        ch.chnm = type(mm).options_chnm
+        ch.chdt = dict(template.options_chunks())[b"CHDT"]
+        mm.load_chunk(ch)
+        res.count("proxy_options_chunk_histories")
+    else:
+        mm.user_defined_controllers = 1
     mm.mappings.values[0] = mm.Mapping((1, sc.number - 1))
     mm.update_user_defined_controllers()
     if history == "nested":
@@ -810,6 +847,8 @@ def run_shard(spec_, res):
                 check_proxy(res, T, cname, via_file=via_file, full=spec_["tier"] == "thorough")
                 check_proxy(res, T, cname, via_file=via_file, full=False, history="recount")
                 check_proxy(res, T, cname, via_file=via_file, full=False, history="nested")
+                if not via_file:
+                    check_proxy(res, T, cname, via_file=False, full=False, history="options-chunk")
                 if spec.load()[T].ctl(cname).kind == "dependent":
                     check_proxy(res, T, cname, via_file=via_file, full=False, history="units")
     if spec_["shard"] == 0:
